@@ -10,6 +10,8 @@ import PyamgV.Proofs.GsAdjoint
 import PyamgV.Proofs.ExtRelaxRefine
 import PyamgV.Proofs.ExtC09Block
 import PyamgV.Proofs.ExtC09Kaczmarz
+import PyamgV.Proofs.ExtC09XPublic
+import PyamgV.Proofs.ExtC09XToCsc
 
 /-! # C09 — relaxation sweeps compute exactly their defining splitting update
 
@@ -208,6 +210,73 @@ example : K.pyPolynomial (α := Rat) ⟨2, #[0, 2, 4], #[0, 1, 0, 1], #[2, -1, -
     = some #[3/2, 3/2] := by decide +kernel
 example : K.pyGaussSeidelNE (α := Rat) id 1 ⟨2, #[0, 2, 4], #[0, 1, 0, 1], #[1, 1, 1, -1]⟩ #[2, 0] none 1 .forward #[0, 0]
     = #[1, 1] := by decide +kernel
+
+/-! ### extension E33: `block_jacobi_indexed`, `cf_block_jacobi` / `fc_block_jacobi`, meaning of the storage conversions, and the
+public block routines on CSR input (Model/ExtC09XIndexed.lean; Proofs/ExtC09XToBsr.lean, ExtC09XDense.lean, ExtC09XPublic.lean,
+ExtC09XToCsc.lean)
+
+`ExtC09X.blockJacobiIndexed`, `pyCFBlockJacobi`, `pubBlockJacobi`, `pubBlockGaussSeidel`, `pubCFBlockJacobi`, `pubGaussSeidelNR` are
+the definitions the correspondence run executes (`e33_*` ops) against the raw kernel and the public functions.  `csrRow A i u` is
+row `i` of the CSR INPUT applied to `u`, `csrEntry A i j` its dense entry (duplicates summed). -/
+
+/-- `block_jacobi_indexed`: the indexed block rows (any order, repetitions, NO closedness assumption) become
+`(1-ω) x_i + ω Dinv_i (b_i − Σ_{j≠i} A_ij x_j)`, all other block rows are untouched -/
+restate block_jacobi_indexed_entry := PyamgV.ExtC09X.blockJacobiIndexed_entry
+/-- ... which is `x + ω D⁻¹ (b − A x)` on the indexed rows when `Dinv_i A_ii = I` -/
+restate block_jacobi_indexed_splitting := PyamgV.ExtC09X.blockJacobiIndexed_splitting
+restate block_jacobi_indexed_fixed_point := PyamgV.ExtC09X.blockJacobiIndexed_fixed_point
+/-- `cf_block_jacobi` = `c_iterations` C sweeps then `f_iterations` F sweeps (`fc_`: the other way round), caller's `omega`, `Dinv` -/
+restate cf_block_jacobi_is_c_then_f := PyamgV.ExtC09X.pyCFBlockJacobi_one
+restate cf_block_jacobi_iterations := PyamgV.ExtC09X.pyCFBlockJacobi_succ
+restate cf_block_jacobi_fixed_point := PyamgV.ExtC09X.pyCFBlockJacobi_fixed_point
+/-- meaning of `A.tobsr(blocksize=(bs,bs))`: weighted block-row sums = weighted CSR row sums, for every weight -/
+restate tobsr_weighted_row_sum := PyamgV.ExtC09X.toBsr_sem
+/-- block `(I,J)` entry `(r,c)` of `A.tobsr` = dense entry `(I bs + r, J bs + c)` of `A` (duplicates summed, padding zero) -/
+restate tobsr_block_entry := PyamgV.ExtC09X.toBsr_entry
+restate tobsr_diag_block := PyamgV.ExtC09X.toBsr_diagBlk
+/-- block row times vector / its off-diagonal part = CSR rows of the input times the (masked) vector -/
+restate tobsr_row_times_vector := PyamgV.ExtC09X.toBsr_rowDotB
+restate tobsr_offdiag_part := PyamgV.ExtC09X.toBsr_offDot
+/-- the inverse-block hypotheses of the block theorems follow from the same statements about the dense entries of the CSR input -/
+restate tobsr_left_inverse := PyamgV.ExtC09X.toBsr_leftInv
+restate tobsr_right_inverse := PyamgV.ExtC09X.toBsr_rightInv
+/-- meaning of `A.tocsc()`: stored line `j` lists exactly the stored entries of column `j` (ascending row, stored order, duplicates kept) -/
+restate tocsc_column_list := PyamgV.ExtC09X.toCsc_col
+restate tocsc_entry := PyamgV.ExtC09X.toCsc_cscEntry
+restate tocsc_matvec := PyamgV.ExtC09X.toCsc_matvec
+/-- PUBLIC `block_jacobi` on CSR input: public model = kernel model on the converted matrix = `(1-ω) x + ω Dinv (b − (A − blockdiag A) x)`
+in the CSR rows of the input = `x + ω blockdiag(A)⁻¹ (b − A x)` when `Dinv` inverts the dense diagonal blocks of `A` -/
+restate public_block_jacobi_layers := PyamgV.ExtC09X.pubBlockJacobi_layers
+restate public_block_jacobi_iterations := PyamgV.ExtC09X.pubBlockJacobi_succ
+restate public_block_jacobi_fixed_point := PyamgV.ExtC09X.pubBlockJacobi_fixed_point
+/-- PUBLIC `cf_block_jacobi` / `fc_block_jacobi` on CSR input: public model = C/F sequence of indexed kernel calls on the converted
+matrix = damped block Jacobi update of the indexed block rows in the CSR rows of the input, other rows untouched -/
+restate public_cf_block_jacobi_layers := PyamgV.ExtC09X.pubCFBlockJacobi_layers
+restate public_cf_block_jacobi_fixed_point := PyamgV.ExtC09X.pubCFBlockJacobi_fixed_point
+/-- PUBLIC `block_gauss_seidel` on CSR input: public model = block-row steps on the converted matrix (forward / backward / symmetric)
+= `x_I ← x_I + Dinv_I (b − A x)_I` in the CSR rows of the input; rows of block `I` solved exactly right after their step -/
+restate public_block_gs_layers := PyamgV.ExtC09X.pubBlockGaussSeidel_layers
+restate public_block_gs_fixed_point := PyamgV.ExtC09X.pubBlockGaussSeidel_fixed_point
+/-- PUBLIC `gauss_seidel_nr` on CSR input: public model = kernel model on `A.tocsc()` started from `b − A x`; column corrections and
+residual updates in the dense entries of the input -/
+restate public_gs_nr_layers := PyamgV.ExtC09X.pubGaussSeidelNR_layers
+restate public_gs_nr_fixed_point := PyamgV.ExtC09X.pubGaussSeidelNR_fixed_point
+
+/-! non-vacuity: the CSR matrix `[[2,1],[1,1]]` stored unsorted with a split (duplicate) entry meets `CsrLeftInv` / `CsrRightInv` with
+`Dinv = [[1,-1],[-1,2]]`; the public models convert, sweep and keep the solution on it; a CF sweep on a 2x2 point system -/
+example : ExtC09X.CsrLeftInv (R := Rat) ⟨2, #[0, 3, 5], #[1, 0, 0, 1, 0], #[1, 1, 1, 1, 1]⟩ 2 #[1, -1, -1, 2] 0 := by
+  unfold ExtC09X.CsrLeftInv; decide +kernel
+example : ExtC09X.CsrRightInv (R := Rat) ⟨2, #[0, 3, 5], #[1, 0, 0, 1, 0], #[1, 1, 1, 1, 1]⟩ 2 #[1, -1, -1, 2] 0 := by
+  unfold ExtC09X.CsrRightInv; decide +kernel
+example : ExtC09X.pubBlockJacobi (α := Rat) (1/2) ⟨2, #[0, 3, 5], #[1, 0, 0, 1, 0], #[1, 1, 1, 1, 1]⟩ 2 #[3, 2] #[1, -1, -1, 2] 2 #[1, 1]
+    = some #[1, 1] := by decide +kernel
+example : ExtC09X.pubBlockGaussSeidel (α := Rat) ⟨2, #[0, 3, 5], #[1, 0, 0, 1, 0], #[1, 1, 1, 1, 1]⟩ 2 #[3, 2] #[1, -1, -1, 2] 1 .symmetric #[5, 7]
+    = some #[1, 1] := by decide +kernel
+example : ExtC09X.pubCFBlockJacobi (α := Rat) true 1 ⟨2, #[0, 2, 4], #[1, 0, 0, 1], #[-1, 2, -1, 2]⟩ 1 #[1, 1] #[1/2, 1/2] [0] [1] 1 1 1 #[0, 0]
+    = some #[1/2, 3/4] := by decide +kernel
+example : ExtC09X.pubCFBlockJacobi (α := Rat) false 1 ⟨2, #[0, 2, 4], #[1, 0, 0, 1], #[-1, 2, -1, 2]⟩ 1 #[1, 1] #[1/2, 1/2] [0] [1] 1 1 1 #[0, 0]
+    = some #[3/4, 1/2] := by decide +kernel
+example : ExtC09X.colEntries (R := Rat) ⟨2, #[0, 3, 5], #[1, 0, 0, 1, 0], #[1, 1, 1, 1, 1]⟩ 0 = [(0, 1), (0, 1), (1, 1)] := by decide +kernel
 
 /-! ### interface facts regenerated from the working tree on every run (translator tie) -/
 /-- the `kernels_relaxation` table the models assume equals the one regenerated from the source now -/
